@@ -21,6 +21,7 @@ CONFIG = dict(
     assumptions=["sequence numbers are below 2^31-2 (C13), so a fork marker is the maximal observation",
                  "ProcessEvent is called for events of current validators that the DagIndex knows",
                  "the self flag marks the node's own events (85% of fake cases: flag == creator is the node; 15%: free flags, 'own latest observation' = latest event flagged self)"],
+    level_more='Now and then 2^8, 2^16 or 2^16+1 events are processed between two queries of a long-lived indexer.',
     units=[
         dict(test="TestC20FakeIndex", quick=10000, thorough=1600000, shards=16),
         dict(test="TestC20VecfcIndex", quick=6000, thorough=800000, shards=16),
